@@ -2,7 +2,7 @@
 //! them every tick.  The type annotations are part of the tie: if the bound mapping
 //! (`KeyedStreamToMonotone`, `StreamToMonotone`, `WithBoundedValue`, …) changes, this file stops
 //! compiling.
-use hydro_lang::live_collections::keyed_singleton::{BoundedValue, MonotonicValue};
+use hydro_lang::live_collections::keyed_singleton::{BoundedValue, MonotonicKeys, MonotonicValue};
 use hydro_lang::live_collections::singleton::Monotonic;
 use hydro_lang::live_collections::stream::TotalOrder;
 use hydro_lang::prelude::*;
@@ -88,6 +88,42 @@ pub fn kfirst_map<'a>(input: In<'a, (i32, i32)>) {
 pub fn kfirst_entries<'a>(input: In<'a, (i32, i32)>) {
     let k: KeyedSingleton<i32, i32, P<'a>, BoundedValue> = input.into_keyed().first();
     k.entries()
+        .assume_ordering::<TotalOrder>(nondet!(/** harness sorts */))
+        .embedded_output("out");
+}
+
+// ---- bound-preserving operators on keyed singletons (review): `filter` keeps a BoundedValue bound,
+// `filter_map` / `map` go through `EraseMonotonic` (BoundedValue stays, MonotonicValue -> MonotonicKeys)
+
+/// per-key first, filtered by a predicate on the (fixed) value: still `BoundedValue`
+pub fn kfirst_filter<'a>(input: In<'a, (i32, i32)>) {
+    let tick = input.location().tick();
+    let k: KeyedSingleton<i32, i32, P<'a>, BoundedValue> = input.into_keyed().first().filter(q!(|v| *v > 0));
+    k.into_singleton()
+        .snapshot(&tick, nondet!(/** harness observes every tick */))
+        .all_ticks()
+        .embedded_output("out");
+}
+
+/// per-key first through `filter_map`: `BoundedValue::EraseMonotonic = BoundedValue`
+pub fn kfirst_fmap<'a>(input: In<'a, (i32, i32)>) {
+    let tick = input.location().tick();
+    let k: KeyedSingleton<i32, i32, P<'a>, BoundedValue> =
+        input.into_keyed().first().filter_map(q!(|v| if v % 2 == 0 { Some(v * 10) } else { None }));
+    k.into_singleton()
+        .snapshot(&tick, nondet!(/** harness observes every tick */))
+        .all_ticks()
+        .embedded_output("out");
+}
+
+/// a non-monotone map of a monotone count: `MonotonicValue::EraseMonotonic = MonotonicKeys` (keys persist,
+/// values may go down)
+pub fn vcount_map<'a>(input: In<'a, (i32, i32)>) {
+    let tick = input.location().tick();
+    let k: KeyedSingleton<i32, usize, P<'a>, MonotonicKeys> = input.into_keyed().value_counts().map(q!(|c| c % 2));
+    k.snapshot(&tick, nondet!(/** harness observes every tick */))
+        .entries()
+        .all_ticks()
         .assume_ordering::<TotalOrder>(nondet!(/** harness sorts */))
         .embedded_output("out");
 }
